@@ -42,7 +42,8 @@ def strategy(date, ctx):
     @st.composite
     def s(draw):
         pop = draw(popgen.populations(date, **GEN))
-        pool = st.one_of(st.sampled_from(nodes), st.sampled_from(nodes), st.sampled_from(nodes),
+        grouped = [n for n in nodes if env.group_of(n) is not None] or nodes
+        pool = st.one_of(st.sampled_from(nodes), st.sampled_from(nodes), st.sampled_from(grouped),
                          st.sampled_from(units) if units else st.sampled_from(nodes))
         chosen = sorted(set(draw(st.lists(pool, min_size=k, max_size=k))))
         pairs = draw(st.booleans())
@@ -71,7 +72,22 @@ def check_nodes(df, date, chosen, rounding, pairs, stats=None):
     targets0 = sorted(nodeset | set(chosen))
     base = env.simulate(df, date, targets=targets0, rounding=rounding)
     dag = env.dag_info(date)["dag"]
-    rules = set(env.policy_env(date)[1]) | {"fg_id", "bg_id", "eg_id", "ehe_id", "sn_id", "wthh_id"}
+    # rules, grouping ids and aggregation nodes (built-in specs, automatic sums) are computations that
+    # the supplied column overrides; derived time-unit variants are simply not created
+    functions = env.policy_env(date)[1]
+    rules = set(functions) | {"fg_id", "bg_id", "eg_id", "ehe_id", "sn_id", "wthh_id"}
+    for n_ in nodeset:
+        if n_ not in functions and env.group_of(n_) is not None:
+            vv = None
+            try:
+                from .c13 import variants as _variants
+
+                vv = _variants(n_)
+            except Exception:  # noqa: BLE001
+                vv = None
+            is_unit_variant_of_rule = bool(vv) and any(v in functions for u_, v in vv[0].items() if v != n_)
+            if not is_unit_variant_of_rule:
+                rules.add(n_)
     key = np.arange(len(df))
     fails = []
     groups = [[n] for n in chosen]
